@@ -5,6 +5,7 @@ import VaxisModel.Model.Scrollbar
 import VaxisModel.Model.DynList
 import VaxisModel.Gen.ListFacts
 import VaxisModel.Model.DynGenBodies
+import VaxisModel.Model.WidGenBodies
 
 /-! Driver for C19 (stateful).  One widget per `#case`.  Lines (op<TAB>impl):
 
@@ -29,6 +30,42 @@ open VaxisModel.Driver VaxisModel.Model
 def genRhs : SimpleList.Rhs := SimpleList.gen
 
 def flush : Bool := Gen.ListFacts.layoutFlushesLast
+
+/-! ### the widgets' regenerated bodies, run through the interpreter `Model/WidExec.lean` beside the models
+
+A disagreement is appended to the model column (`INTERP!=MODEL …`), i.e. reported as a broken correspondence with the
+failing input. -/
+
+def slInterp (s : SimpleList.St) (o : SimpleList.Op) : String :=
+  let B := WidExec.genB
+  let r := match o with
+    | .down => WidExec.runList B.listDown s 0 0
+    | .up => WidExec.runList B.listUp s 0 0
+    | .home => WidExec.runList B.listHome s 0 0
+    | .«end» => WidExec.runList B.listEnd s 0 0
+    | .pageDown h => WidExec.runList B.listPageDown s h 0
+    | .pageUp h => WidExec.runList B.listPageUp s h 0
+    | .setItems k => WidExec.runList B.listSetItems s 0 k
+    | .draw h => WidExec.runList B.listDraw s h 0
+  match r, SimpleList.step genRhs s o with
+  | some (.ok (s1, r1)), .ok (s2, r2) =>
+    if s1 = s2 ∧ r1 = r2 then "" else s!" INTERP!=MODEL idx={s1.index} off={s1.offset} n={s1.n} rows={r1.length}"
+  | some (.error _), .error _ => ""
+  | some (.error _), .ok _ => " INTERP!=MODEL panic"
+  | some (.ok _), .error _ => " INTERP!=MODEL no panic"
+  | Option.none, _ => " INTERP!=MODEL stuck"
+
+def pgInterp (body : DynExec.Stmt) (s : Pager.St) (w h : Nat) (want : Pager.St) (rows : Option WidExec.Win) : String :=
+  match WidExec.runPager WidExec.genB body [s.text] s w h true with
+  | some (s1, win) =>
+    if s1 == want && (match rows with | some r => win == r | Option.none => true) then ""
+    else s!" INTERP!=MODEL off={s1.offset} lines={s1.lines.length} width={s1.width}"
+  | Option.none => " INTERP!=MODEL stuck"
+
+def sbInterp (total view top : Int) (h : Nat) : String :=
+  match WidExec.runBar WidExec.genB.barDraw total view top 1 h (h + 2) true with
+  | some rows => if rows = Scrollbar.rows total view top h then "" else s!" INTERP!=MODEL rows={rows}"
+  | Option.none => " INTERP!=MODEL stuck"
 
 inductive W where
   | none
@@ -90,7 +127,7 @@ def slDrawVerdict (n h : Nat) (idx : Int) (rows : String) : String :=
 def slStep (s : SimpleList.St) (n : Nat) (op : List String) (impl : String) : W × String :=
   let nav (o : SimpleList.Op) (n' : Nat) : W × String :=
     let s' := SimpleList.nav genRhs s o
-    let mc := s!"idx={s'.index}"
+    let mc := s!"idx={s'.index}{slInterp s o}"
     match parseIdx impl with
     | some i => (.sl s' n', s!"{mc}\t{impl}\t{slIdxVerdict n' i}")
     | Option.none => (.dead, s!"{mc}\t{impl}\tFAIL navigation panicked or unparsable result")
@@ -106,8 +143,8 @@ def slStep (s : SimpleList.St) (n : Nat) (op : List String) (impl : String) : W 
     match h.toNat? with
     | some h =>
       let (w, mc) : W × String := match SimpleList.draw genRhs s h with
-        | .ok (s', rows) => (W.sl s' n, s!"idx={s'.index} rows={slRowsCanon rows h}")
-        | .error _ => (W.dead, "panic")
+        | .ok (s', rows) => (W.sl s' n, s!"idx={s'.index} rows={slRowsCanon rows h}{slInterp s (.draw h)}")
+        | .error _ => (W.dead, s!"panic{slInterp s (.draw h)}")
       if impl = "panic" then (.dead, s!"{mc}\tpanic\tFAIL Draw panicked ({n} items, height {h})")
       else
         let fs := fields impl
@@ -181,7 +218,7 @@ def pgStep (s : Pager.St) (lastW : Int) (fresh : Bool) (op : List String) (impl 
     | Option.none => (.dead, bad)
   | ["layout"] =>
     let s' := Pager.relayout flush s
-    let mc := s!"lines={pgLines s'.lines}"
+    let mc := s!"lines={pgLines s'.lines}{pgInterp WidExec.genB.pagerLayout s 0 0 s' Option.none}"
     let v := match kv "lines" (fields impl) with
       | some l => pgCompleteVerdict s.text lastW (parseLines l)
       | Option.none => "FAIL Layout panicked or unparsable result"
@@ -190,7 +227,7 @@ def pgStep (s : Pager.St) (lastW : Int) (fresh : Bool) (op : List String) (impl 
     match w.toNat?, h.toNat? with
     | some w, some h =>
       let (s', rows) := Pager.draw flush s w h
-      let mc := s!"off={s'.offset} lines={pgLines s'.lines} rows={pgRows rows}"
+      let mc := s!"off={s'.offset} lines={pgLines s'.lines} rows={pgRows rows}{pgInterp WidExec.genB.pagerDraw s w h s' (some rows)}"
       let relaid := (w : Int) ≠ lastW
       let fresh' := fresh || relaid
       let fs := fields impl
@@ -203,8 +240,8 @@ def pgStep (s : Pager.St) (lastW : Int) (fresh : Bool) (op : List String) (impl 
         | _, _, _ => "FAIL Draw panicked or unparsable result"
       (.pg s' w fresh', s!"{mc}\t{impl}\t{v}")
     | _, _ => (.dead, bad)
-  | ["down"] => let s' := Pager.scrollDown s; (.pg s' lastW fresh, s!"off={s'.offset}\t{impl}\t-")
-  | ["up"] => let s' := Pager.scrollUp s; (.pg s' lastW fresh, s!"off={s'.offset}\t{impl}\t-")
+  | ["down"] => let s' := Pager.scrollDown s; (.pg s' lastW fresh, s!"off={s'.offset}{pgInterp WidExec.genB.pagerScrollDown s 0 0 s' Option.none}\t{impl}\t-")
+  | ["up"] => let s' := Pager.scrollUp s; (.pg s' lastW fresh, s!"off={s'.offset}{pgInterp WidExec.genB.pagerScrollUp s 0 0 s' Option.none}\t{impl}\t-")
   | ["off", k] =>
     match k.toInt? with
     | some k => (.pg { s with offset := k } lastW fresh, s!"off={k}\t{impl}\t-")
@@ -227,7 +264,7 @@ def sbVerdict (total view top : Int) (h : Nat) (rows : List Nat) : String :=
 def sbStep (op : List String) (impl : String) : String :=
   match op.mapM (·.toInt?) with
   | some [total, view, top, h] =>
-    let mc := s!"rows={joinNats "," (Scrollbar.rows total view top h.toNat)}"
+    let mc := s!"rows={joinNats "," (Scrollbar.rows total view top h.toNat)}{sbInterp total view top h.toNat}"
     match kv "rows" (fields impl) with
     | some r =>
       match commaNats? r with
